@@ -1,6 +1,7 @@
 /* Correspondence driver for src/heap.c (C07).
  *
  * Script:  keys k0 k1 ...   (keys of the next elements; lines append; default 0)
+ *          cmpmode 0|1|2    (optional: what the comparison callback returns, see cmp())
  *          dumpevery k      (optional: full level-order dump only after every
  *                            k-th operation and after the last one)
  *          push e | pop | get | size | clear
@@ -40,10 +41,20 @@ static struct elem * elem_of(const struct cstl_bintree_node * n)
     return (struct elem *)((uintptr_t)n - offsetof(struct elem, hn.bn));
 }
 
+/* The contract of cstl_compare_func_t only fixes the sign of the result.
+ * cmpmode 0: -1/0/1; 1: difference of the keys; 2: the sign times a magnitude
+ * that changes from call to call. */
+static int cmpmode;
+static unsigned cmp_calls;
 static int cmp(const void * a, const void * b, void * p)
 {
-    const struct elem * x = a, * y = b; (void)p;
-    return (x->key > y->key) - (x->key < y->key);
+    const struct elem * x = a, * y = b;
+    const int sign = (x->key > y->key) - (x->key < y->key);
+    (void)p;
+    cmp_calls++;
+    if (cmpmode == 1) return x->key - y->key;
+    if (cmpmode == 2) return sign * (int)(1 + (cmp_calls * 7u) % 13u);
+    return sign;
 }
 
 static int clr_log[MAXE], clr_n;
@@ -99,10 +110,11 @@ static void run_case(const struct h_case * c)
 {
     int i, k, every = 1, nops = 0, done = 0;
 
-    nkeys = 0;
+    nkeys = 0; cmpmode = 0; cmp_calls = 0;
     memset(pool, 0, sizeof(pool));
     for (i = 0; i < c->nlines; i++)
-        if (!h_weq(&c->lines[i], 0, "keys") && !h_weq(&c->lines[i], 0, "dumpevery")) nops++;
+        if (!h_weq(&c->lines[i], 0, "keys") && !h_weq(&c->lines[i], 0, "dumpevery")
+            && !h_weq(&c->lines[i], 0, "cmpmode")) nops++;
     cstl_heap_init(&heap, cmp, NULL, offsetof(struct elem, hn));
     for (i = 0; i < c->nlines; i++) {
         const struct h_line * l = &c->lines[i];
@@ -113,6 +125,7 @@ static void run_case(const struct h_case * c)
             continue;
         }
         if (h_weq(l, 0, "dumpevery")) { every = a > 0 ? a : 1; continue; }
+        if (h_weq(l, 0, "cmpmode")) { cmpmode = a; continue; }
         if (h_weq(l, 0, "push") && l->nw == 2) { cstl_heap_push(&heap, get(a)); printf("ok "); }
         else if (h_weq(l, 0, "pop") && l->nw == 1) { printf("ok %d", idof(cstl_heap_pop(&heap))); }
         else if (h_weq(l, 0, "get") && l->nw == 1) { printf("ok %d", idof(cstl_heap_get(&heap))); }
